@@ -11,6 +11,8 @@ N2  helpers that are not in sa/pinned_functions.json (introduced after the rules
 N3  equivalent spellings:  np.flatnonzero(m) -> np.where(m)[0];  x[::-1] -> np.flip(x, axis=0);
     (f(x) for x in (a, b, c)) -> (f(a), f(b), f(c))   (comprehension / generator over a literal tuple or list)
 N4  unpacking of a name (not of a call):  a, b = p  ->  a = p[0]; b = p[1]   (nested patterns too)
+N8  pair loops over a series:  for i, (a, b) in enumerate(zip(x[:-1], x[1:]), start=c)  ->  for k in range(len(x) - 1): a = x[k]; b = x[k+1]
+N9  a state vector carried through a time loop beside the zero-initialised array it is stored into is that array's previous column
 N7  list comprehensions and generator expressions become explicit append loops
 N6  module-level constant expressions (NAME = np.pi / (2 * 9.81), bound once) are substituted where functions load NAME
 N5  row views of a freshly allocated local array:  v = X[a:]; v[:, j] = e  ->  X[a:, j] = e   (bare loads of v -> X[a:])
@@ -39,9 +41,31 @@ def pinned():
 
 # ------------------------------------------------------------------------------------------------- N3 spellings
 class _Spell(ast.NodeTransformer):
+    # leading parameters of library calls that the pinned tree always passes by position
+    _POSITIONAL = {"linspace": ("start", "stop", "num"), "interp": ("x", "xp", "fp"), "resample": ("x", "num"), "take": ("a", "indices"),
+                   "insert": ("arr", "obj", "values"), "where": ("condition", "x", "y"), "polyfit": ("x", "y", "deg"), "delete": ("arr", "obj"),
+                   "put": ("a", "ind", "v"), "AccSignal": ("values", "dt"), "Signal": ("values", "dt")}
+
     def visit_Call(self, n):
         self.generic_visit(n)
         fn = ast.unparse(n.func)
+        short = fn.split(".")[-1]
+        if short in self._POSITIONAL and (fn.startswith(("np.", "numpy.", "scipy.")) or fn == short or short in ("AccSignal", "Signal")) and n.keywords and \
+                not any(isinstance(a, ast.Starred) for a in n.args) and not any(k.arg is None for k in n.keywords):
+            names = self._POSITIONAL[short]
+            kws = {k.arg: k for k in n.keywords}
+            moved = False
+            while len(n.args) < len(names) and names[len(n.args)] in kws:
+                k = kws.pop(names[len(n.args)])
+                n.args.append(k.value)
+                n.keywords.remove(k)
+                moved = True
+        if fn in ("np.union1d", "numpy.union1d") and len(n.args) == 2 and not n.keywords:
+            # numpy's own definition: unique(concatenate((ar1, ar2), axis=None))
+            np_ = ast.Name(id=fn.split(".")[0], ctx=ast.Load())
+            cat = ast.Call(func=ast.Attribute(value=np_, attr="concatenate", ctx=ast.Load()),
+                           args=[ast.Tuple(elts=list(n.args), ctx=ast.Load())], keywords=[ast.keyword(arg="axis", value=ast.Constant(value=None))])
+            return ast.copy_location(ast.Call(func=ast.Attribute(value=copy.deepcopy(np_), attr="unique", ctx=ast.Load()), args=[cat], keywords=[]), n)
         if fn in ("np.flatnonzero", "numpy.flatnonzero") and len(n.args) == 1 and not n.keywords:
             w = ast.Call(func=ast.Attribute(value=ast.Name(id=fn.split(".")[0], ctx=ast.Load()), attr="where", ctx=ast.Load()),
                          args=n.args, keywords=[])
@@ -70,9 +94,61 @@ class _Spell(ast.NodeTransformer):
     def visit_ListComp(self, n):
         return self._unroll(n, lambda e: ast.List(elts=e, ctx=ast.Load()))
 
+    def visit_Expr(self, n):
+        """np.subtract(A, B, out=X[s])  as a statement  ->  X[s] = A - B   (likewise add, multiply, divide): what the ufunc writes"""
+        v = n.value
+        ops = {"subtract": ast.Sub, "add": ast.Add, "multiply": ast.Mult, "divide": ast.Div, "true_divide": ast.Div}
+        if isinstance(v, ast.Call) and isinstance(v.func, ast.Attribute) and isinstance(v.func.value, ast.Name) and \
+                v.func.value.id in ("np", "numpy") and v.func.attr in ops and len(v.args) == 2 and len(v.keywords) == 1 and \
+                v.keywords[0].arg == "out" and isinstance(v.keywords[0].value, ast.Subscript):
+            o = v.keywords[0].value
+            tgt = ast.copy_location(ast.Subscript(value=o.value, slice=o.slice, ctx=ast.Store()), o)
+            new = ast.Assign(targets=[tgt], value=ast.copy_location(ast.BinOp(left=v.args[0], op=ops[v.func.attr](), right=v.args[1]), v))
+            return self.generic_visit(ast.fix_missing_locations(ast.copy_location(new, n)))
+        return self.generic_visit(n)
+
+    def visit_BinOp(self, n):
+        """X[.., 1:, ..] - X[.., :-1, ..]  ->  np.diff(X, axis=k)   (X a name; every other axis taken whole; what np.diff computes for numbers)"""
+        self.generic_visit(n)
+        if not (isinstance(n.op, ast.Sub) and isinstance(n.left, ast.Subscript) and isinstance(n.right, ast.Subscript) and
+                isinstance(n.left.value, ast.Name) and isinstance(n.right.value, ast.Name) and n.left.value.id == n.right.value.id):
+            return n
+        ls = n.left.slice.elts if isinstance(n.left.slice, ast.Tuple) else [n.left.slice]
+        rs = n.right.slice.elts if isinstance(n.right.slice, ast.Tuple) else [n.right.slice]
+        if len(ls) != len(rs) or not all(isinstance(x, ast.Slice) and x.step is None for x in ls + rs):
+            return n
+
+        def whole(x):
+            return x.lower is None and x.upper is None
+
+        def from1(x):
+            return isinstance(x.lower, ast.Constant) and x.lower.value == 1 and x.upper is None
+
+        def tom1(x):
+            return x.lower is None and isinstance(x.upper, ast.UnaryOp) and isinstance(x.upper.op, ast.USub) and \
+                isinstance(x.upper.operand, ast.Constant) and x.upper.operand.value == 1
+        axes = [i for i, (a, b) in enumerate(zip(ls, rs)) if not (whole(a) and whole(b))]
+        if len(axes) != 1 or not (from1(ls[axes[0]]) and tom1(rs[axes[0]])):
+            return n
+        c = ast.Call(func=ast.Attribute(value=ast.Name(id="np", ctx=ast.Load()), attr="diff", ctx=ast.Load()), args=[n.left.value],
+                     keywords=[ast.keyword(arg="axis", value=ast.Constant(value=axes[0]))])
+        return ast.copy_location(c, n)
+
     def visit_Subscript(self, n):
         self.generic_visit(n)
         s = n.slice
+        # np.r_[a, b, ...] (no slices, no directive strings): the pieces joined along the first axis, scalars as one-element pieces
+        if isinstance(n.ctx, ast.Load) and ast.unparse(n.value) in ("np.r_", "numpy.r_") and isinstance(s, ast.Tuple) and s.elts and \
+                not any(isinstance(e, (ast.Slice, ast.Starred)) or (isinstance(e, ast.Constant) and isinstance(e.value, str)) for e in s.elts):
+            np_ = ast.Name(id=ast.unparse(n.value).split(".")[0], ctx=ast.Load())
+            pcs = []
+            for e in s.elts:
+                if isinstance(e, ast.Constant) and isinstance(e.value, (int, float)) and not isinstance(e.value, bool):
+                    pcs.append(ast.List(elts=[e], ctx=ast.Load()))
+                else:
+                    pcs.append(ast.Call(func=ast.Attribute(value=copy.deepcopy(np_), attr="atleast_1d", ctx=ast.Load()), args=[e], keywords=[]))
+            return ast.copy_location(ast.Call(func=ast.Attribute(value=np_, attr="concatenate", ctx=ast.Load()),
+                                              args=[ast.Tuple(elts=pcs, ctx=ast.Load())], keywords=[]), n)
         # x[a:b:-1] with constants a < 0 <= b walks n+a, ..., b+1: the reverse of x[b+1:a+1]
         if isinstance(n.ctx, ast.Load) and isinstance(s, ast.Slice) and s.lower is not None and s.upper is not None and \
                 isinstance(s.step, ast.UnaryOp) and isinstance(s.step.op, ast.USub) and isinstance(s.step.operand, ast.Constant) and \
@@ -93,6 +169,153 @@ class _Spell(ast.NodeTransformer):
                          keywords=[ast.keyword(arg="axis", value=ast.Constant(value=0))])
             return ast.copy_location(c, n)
         return n
+
+
+class _Getattr(ast.NodeTransformer):
+    """getattr(X, 'name') -> X.name ; setattr(X, 'name', V) stays (a statement form is not needed by any twin so far)"""
+    def visit_Call(self, n):
+        self.generic_visit(n)
+        if isinstance(n.func, ast.Name) and n.func.id == "getattr" and len(n.args) == 2 and not n.keywords and \
+                isinstance(n.args[1], ast.Constant) and isinstance(n.args[1].value, str) and n.args[1].value.isidentifier():
+            return ast.copy_location(ast.Attribute(value=n.args[0], attr=n.args[1].value, ctx=ast.Load()), n)
+        return n
+
+
+def _fold_literal_tests(stmts):
+    """if 'a' == 'a': A else: B -> A   (comparisons of two literals, as left by a literal parameter): dead branches are dropped"""
+    out = []
+    for st in stmts:
+        for fld in ("body", "orelse", "finalbody"):
+            sub = getattr(st, fld, None)
+            if isinstance(sub, list) and sub and isinstance(sub[0], ast.stmt) and not isinstance(st, (ast.FunctionDef, ast.ClassDef)):
+                setattr(st, fld, _fold_literal_tests(sub))
+        if isinstance(st, ast.If) and isinstance(st.test, ast.Compare) and len(st.test.ops) == 1 and isinstance(st.test.left, ast.Constant) and \
+                isinstance(st.test.comparators[0], ast.Constant) and isinstance(st.test.ops[0], (ast.Eq, ast.NotEq, ast.Is, ast.IsNot)):
+            eq = st.test.left.value == st.test.comparators[0].value and type(st.test.left.value) is type(st.test.comparators[0].value)
+            take = eq if isinstance(st.test.ops[0], (ast.Eq, ast.Is)) else not eq
+            out.extend(st.body if take else st.orelse)
+            continue
+        out.append(st)
+    return out or [ast.Pass()]
+
+
+def _hoist_common_prefix(fn):
+    """N17  if c: P; X  else: P'; Y   with P' equal to P up to the names P' itself binds  ->  P; if c: X else: Y'
+    (c a plain name that P does not bind; the names bound in P' occur nowhere outside the else branch).  Both branches run the same
+    statements first whatever c is, so running them before the test is the same computation.  This is the shape the inliner leaves when
+    one helper call is written once per literal option."""
+    outside_cache = {}
+
+    def names_in(nodes):
+        return {x.id for n in nodes for x in ast.walk(n) if isinstance(x, ast.Name)}
+
+    def stored_in(nodes):
+        return {x.id for n in nodes for x in ast.walk(n) if isinstance(x, ast.Name) and isinstance(x.ctx, (ast.Store, ast.Del))}
+
+    def do_block(stmts, rest_of_fn_names):
+        out = []
+        for k, st in enumerate(stmts):
+            for fld in ("body", "orelse", "finalbody"):
+                sub = getattr(st, fld, None)
+                if isinstance(sub, list) and sub and isinstance(sub[0], ast.stmt) and not isinstance(st, (ast.FunctionDef, ast.ClassDef)):
+                    setattr(st, fld, do_block(sub, rest_of_fn_names))
+            if isinstance(st, ast.If) and isinstance(st.test, ast.Name) and len(st.body) >= 2 and len(st.orelse) >= 2:
+                a, b = st.body, st.orelse
+                ren = {}
+                npre = 0
+                for x, y in zip(a, b):
+                    # names newly bound by y map onto the names x binds at the same positions
+                    xs = [n.id for n in ast.walk(x) if isinstance(n, ast.Name) and isinstance(n.ctx, ast.Store)]
+                    ys = [n.id for n in ast.walk(y) if isinstance(n, ast.Name) and isinstance(n.ctx, ast.Store)]
+                    trial = dict(ren)
+                    if len(xs) != len(ys):
+                        break
+                    okm = True
+                    for xn, yn in zip(xs, ys):
+                        if yn != xn:
+                            if trial.get(yn, xn) != xn:
+                                okm = False
+                            trial[yn] = xn
+                    if not okm:
+                        break
+                    y2 = _Rename(trial).visit(copy.deepcopy(y))
+                    if ast.dump(y2) != ast.dump(x):
+                        break
+                    ren = trial
+                    npre += 1
+                npre = min(npre, len(a) - 1, len(b) - 1)
+                if npre >= 1:
+                    pre = a[:npre]
+                    # conditions: the test name is not bound by the prefix; else-only names appear nowhere else in the function
+                    other = [n for n in ast.walk(fn) if isinstance(n, ast.Name) and n.id in ren and not any(n is z for yb in b for z in ast.walk(yb))]
+                    if st.test.id not in stored_in(pre) and not other and not any(
+                            isinstance(z, (ast.Return, ast.Break, ast.Continue, ast.Raise)) for x in pre for z in ast.walk(x)):
+                        st.body = a[npre:]
+                        st.orelse = [_Rename(ren).visit(y) for y in b[npre:]]
+                        out.extend(pre)
+                        out.append(st)
+                        continue
+            out.append(st)
+        return out
+    fn.body = do_block(fn.body, None)
+
+
+def _dict_attrs(tree):
+    """attribute names A such that every store `<x>.A = V` in the module has V a dict display / dict(...) / {}: then <self>.A is a dict
+    wherever the module's own code put it there"""
+    ok, bad = set(), set()
+    for n in ast.walk(tree):
+        tg = []
+        if isinstance(n, ast.Assign):
+            tg = [(t, n.value) for t in n.targets]
+        elif isinstance(n, ast.AnnAssign) and n.value is not None:
+            tg = [(n.target, n.value)]
+        elif isinstance(n, ast.AugAssign):
+            tg = [(n.target, None)]
+        for t, v in tg:
+            for x in (t.elts if isinstance(t, (ast.Tuple, ast.List)) else [t]):
+                if isinstance(x, ast.Attribute):
+                    if v is not None and x is t and (isinstance(v, ast.Dict) or (isinstance(v, ast.Call) and isinstance(v.func, ast.Name) and
+                                                                               v.func.id in ("dict", "OrderedDict"))):
+                        ok.add(x.attr)
+                    else:
+                        bad.add(x.attr)
+    return ok - bad
+
+
+def _try_keyerror(fn, dict_attrs):
+    """N12  try: S(D[K]) except KeyError: H [else: E]   ->   if K in D: S; E  else: H
+    S one return/assignment whose whole value is D[K]; D an attribute proven to hold a dict (_dict_attrs) of a plain name; K a name or a
+    literal; no finally, one handler naming exactly KeyError and not binding it.  For a dict the subscript raises KeyError exactly when
+    the key is absent, and nothing else in S can raise it."""
+    class T(ast.NodeTransformer):
+        def visit_Try(self, n):
+            self.generic_visit(n)
+            if n.finalbody or len(n.handlers) != 1 or len(n.body) != 1:
+                return n
+            h = n.handlers[0]
+            s0 = n.body[0]
+            # N13  try: X = A.b  except AttributeError: H [else: E]   ->   if hasattr(A, 'b'): X = A.b; E  else: H
+            if not h.name and isinstance(h.type, ast.Name) and h.type.id == "AttributeError" and isinstance(s0, (ast.Assign, ast.Return)) and \
+                    isinstance(s0.value, ast.Attribute) and isinstance(s0.value.value, ast.Name) and \
+                    (isinstance(s0, ast.Return) or all(isinstance(t, ast.Name) for t in s0.targets)):
+                test = ast.Call(func=ast.Name(id="hasattr", ctx=ast.Load()), args=[copy.deepcopy(s0.value.value), ast.Constant(value=s0.value.attr)],
+                                keywords=[])
+                new = ast.If(test=test, body=[s0] + list(n.orelse), orelse=h.body)
+                return ast.fix_missing_locations(ast.copy_location(new, n))
+            if h.name or not (isinstance(h.type, ast.Name) and h.type.id == "KeyError"):
+                return n
+            v = s0.value if isinstance(s0, (ast.Return, ast.Assign)) else None
+            if not (isinstance(v, ast.Subscript) and isinstance(v.value, ast.Attribute) and isinstance(v.value.value, ast.Name) and
+                    v.value.attr in dict_attrs and isinstance(v.slice, (ast.Name, ast.Constant))):
+                return n
+            if isinstance(s0, ast.Assign) and not all(isinstance(t, ast.Name) for t in s0.targets):
+                return n
+            test = ast.Compare(left=copy.deepcopy(v.slice), ops=[ast.In()], comparators=[copy.deepcopy(v.value)])
+            hb = h.body
+            new = ast.If(test=test, body=[s0] + list(n.orelse), orelse=hb)
+            return ast.fix_missing_locations(ast.copy_location(new, n))
+    T().visit(fn)
 
 
 # ------------------------------------------------------------------------------------------------- helpers
@@ -159,7 +382,18 @@ def _unpack(targets, value, like):
     return None if any(o is None for o in out) else out
 
 
+def _is_idiom(fn):
+    """a function whose whole body is an idiom the interpreter recognises AT A CALL (absolute maximum): inlining it would hide the idiom"""
+    try:
+        from .idioms import absmax_operand
+        return absmax_operand(type("F", (), {"node": fn, "params": [a.arg for a in fn.args.args]})()) is not None
+    except Exception:
+        return False
+
+
 def _inlinable(fn):
+    if _is_idiom(fn):
+        return False
     a = fn.args
     if a.vararg or a.kwarg or a.kwonlyargs or a.posonlyargs or fn.decorator_list:
         return False
@@ -282,6 +516,11 @@ def _resolve_helper(call, ctx, cls, selfname):
     return None
 
 
+def _cand(call, ctx, cls, selfname):
+    r = _resolve_helper(call, ctx, cls, selfname)
+    return r is not None and _inlinable(r[0])
+
+
 def _inline(call, how, targets, ctx, cls, selfname, like, depth):
     r = _resolve_helper(call, ctx, cls, selfname)
     if r is None:
@@ -324,6 +563,24 @@ def _inline(call, how, targets, ctx, cls, selfname, like, depth):
         table[fn.args.args[0].arg] = selfname
     ctx.caller_names |= set(table.values())
     body = [_Rename(table).visit(s) for s in body]
+    # a parameter bound to a string literal and never rebound in the helper IS that literal (keys, attribute names, option switches)
+    stored = {n.id for s_ in body for n in ast.walk(s_) if isinstance(n, ast.Name) and isinstance(n.ctx, (ast.Store, ast.Del))}
+    lits = {table[p]: v for p, v in b.items() if isinstance(v, ast.Constant) and isinstance(v.value, str) and table[p] not in stored}
+    if lits:
+        class _Lit(ast.NodeTransformer):
+            def visit_Name(self, n):
+                if n.id in lits and isinstance(n.ctx, ast.Load):
+                    return ast.copy_location(ast.Constant(value=lits[n.id].value), n)
+                return n
+        body = [_Getattr().visit(_Lit().visit(s_)) for s_ in body]
+        body = _fold_literal_tests(body)
+        same = same | {p for p in b if table[p] in lits}
+    # a parameter bound to a plain variable of the caller and never rebound in the helper IS that variable, provided nothing in the
+    # (renamed) helper body stores to the caller's variable either
+    direct = {table[p]: v.id for p, v in b.items() if p not in same and isinstance(v, ast.Name) and table[p] not in stored and v.id not in stored}
+    if direct:
+        body = [_Rename(direct).visit(s_) for s_ in body]
+        same = same | {p for p in b if table[p] in direct}
     binds = [_assign([_name(table[p], ast.Store(), like)], copy.deepcopy(v), like) for p, v in b.items() if p not in same]
     if how == "return":
         stmts = binds + body
@@ -404,6 +661,21 @@ def _stmt(st, ctx, cls, selfname, depth):
             new = ast.If(test=ie.test, body=[ast.copy_location(ast.Return(value=ie.body), st)],
                          orelse=[ast.copy_location(ast.Return(value=ie.orelse), st)])
             return _stmt(ast.fix_missing_locations(ast.copy_location(new, st)), ctx, cls, selfname, depth)
+        # a switch between two literals, decided by a plain name, inside a simple statement (typically an option handed to a call):
+        # the statement is written once per literal -- `f(x, mode='a' if flag else 'b')` -> if flag: f(x, mode='a') else: f(x, mode='b').
+        # Reading a name has no effect, so evaluating it first changes nothing.
+        if isinstance(ie.test, ast.Name) and isinstance(ie.body, ast.Constant) and isinstance(ie.orelse, ast.Constant) and \
+                isinstance(st, (ast.Assign, ast.Expr, ast.Return, ast.AugAssign)):
+            a_ = copy.deepcopy(st)
+            b_ = copy.deepcopy(st)
+            # locate the copied IfExp by position in a walk (deepcopy preserves order)
+            idx_ = [k for k, x in enumerate(ast.walk(st)) if x is ie][0]
+            ia = list(ast.walk(a_))[idx_]
+            ib = list(ast.walk(b_))[idx_]
+            a_ = _Replace(ia, ast.copy_location(ast.Constant(value=ie.body.value), ie)).visit(a_)
+            b_ = _Replace(ib, ast.copy_location(ast.Constant(value=ie.orelse.value), ie)).visit(b_)
+            new = ast.If(test=ie.test, body=[a_], orelse=[b_])
+            return _stmt(ast.fix_missing_locations(ast.copy_location(new, st)), ctx, cls, selfname, depth)
         tmp = ctx.fresh("_ifx")
         pre = ast.If(test=ie.test, body=[_assign([_name(tmp, ast.Store(), st)], ie.body, st)],
                      orelse=[_assign([_name(tmp, ast.Store(), st)], ie.orelse, st)])
@@ -416,12 +688,12 @@ def _stmt(st, ctx, cls, selfname, depth):
         todo = [header]
         while todo and call is None:
             x = todo.pop(0)
-            if isinstance(x, ast.Call) and _resolve_helper(x, ctx, cls, selfname) is not None:
+            if isinstance(x, ast.Call) and _cand(x, ctx, cls, selfname):
                 # innermost-first: arguments may themselves hold helper calls
                 inner = None
                 for ch in list(x.args) + [k.value for k in x.keywords]:
                     c2 = _contains(ch, ast.Call)
-                    while c2 is not None and _resolve_helper(c2, ctx, cls, selfname) is None:
+                    while c2 is not None and not _cand(c2, ctx, cls, selfname):
                         c2 = None
                     if c2 is not None:
                         inner = c2
@@ -558,6 +830,94 @@ def _free_globals(fn):
         set(__builtins__.keys() if isinstance(__builtins__, dict) else ())
 
 
+# ------------------------------------------------------------------------------------------------- N8 / N9 time loops
+def _pair_loops(fn, ctx):
+    """N8  for I, (A, B) in enumerate(zip(X[:-1], X[1:]), start=c)   ->   for k in range(len(X) - 1): A = X[k]; B = X[k + 1]   with I := k + c
+        (also without enumerate: for A, B in zip(X[:-1], X[1:]))"""
+    class T(ast.NodeTransformer):
+        def visit_For(self, n):
+            self.generic_visit(n)
+            it, tgt = n.iter, n.target
+            start, idx = 0, None
+            if isinstance(it, ast.Call) and ast.unparse(it.func) == "enumerate" and it.args and isinstance(tgt, ast.Tuple) and len(tgt.elts) == 2 \
+                    and isinstance(tgt.elts[0], ast.Name):
+                sv = it.args[1] if len(it.args) > 1 else next((k.value for k in it.keywords if k.arg == "start"), None)
+                if sv is not None:
+                    if not (isinstance(sv, ast.Constant) and isinstance(sv.value, int)):
+                        return n
+                    start = sv.value
+                idx, it, tgt = tgt.elts[0].id, it.args[0], tgt.elts[1]
+            if not (isinstance(it, ast.Call) and ast.unparse(it.func) == "zip" and len(it.args) == 2 and isinstance(tgt, ast.Tuple) and
+                    len(tgt.elts) == 2 and all(isinstance(e, ast.Name) for e in tgt.elts)):
+                return n
+            a0, a1 = it.args
+
+            def sl(e, lo, up):
+                return isinstance(e, ast.Subscript) and isinstance(e.value, ast.Name) and isinstance(e.slice, ast.Slice) and e.slice.step is None and \
+                    ((e.slice.lower is None) if lo is None else (isinstance(e.slice.lower, ast.Constant) and e.slice.lower.value == lo)) and \
+                    ((e.slice.upper is None) if up is None else (isinstance(e.slice.upper, ast.UnaryOp) and isinstance(e.slice.upper.op, ast.USub) and
+                                                                 isinstance(e.slice.upper.operand, ast.Constant) and e.slice.upper.operand.value == -up))
+            if not (sl(a0, None, -1) and sl(a1, 1, None) and a0.value.id == a1.value.id):
+                return n
+            X = a0.value.id
+            k = ctx.fresh("_k")
+            kload = lambda: ast.Name(id=k, ctx=ast.Load())
+            pre = [_assign([tgt.elts[0]], ast.Subscript(value=ast.Name(id=X, ctx=ast.Load()), slice=kload(), ctx=ast.Load()), n),
+                   _assign([tgt.elts[1]], ast.Subscript(value=ast.Name(id=X, ctx=ast.Load()),
+                                                        slice=ast.BinOp(left=kload(), op=ast.Add(), right=ast.Constant(value=1)), ctx=ast.Load()), n)]
+            body = n.body
+            if idx is not None:
+                class S(ast.NodeTransformer):
+                    def visit_Name(self_, x):
+                        if x.id == idx and isinstance(x.ctx, ast.Load):
+                            return kload() if start == 0 else ast.BinOp(left=kload(), op=ast.Add(), right=ast.Constant(value=start))
+                        return x
+                body = [S().visit(b) for b in body]
+            rng = ast.Call(func=ast.Name(id="range", ctx=ast.Load()),
+                           args=[ast.BinOp(left=ast.Call(func=ast.Name(id="len", ctx=ast.Load()), args=[ast.Name(id=X, ctx=ast.Load())], keywords=[]),
+                                           op=ast.Sub(), right=ast.Constant(value=1))], keywords=[])
+            new = ast.For(target=ast.Name(id=k, ctx=ast.Store()), iter=rng, body=pre + body, orelse=n.orelse)
+            return ast.fix_missing_locations(ast.copy_location(new, n))
+    fn.body = [T().visit(st) for st in fn.body]
+
+
+def _carried_state(fn):
+    """N9  a state vector carried through a time loop next to the array it is stored into:
+            c = np.zeros(..)                               (S = np.zeros(..) as well, column 0 never stored)
+            for k in range(..):  E = f(c, ..);  S[rows, k + 1] = E;  c = E
+        the loads of c in the body are S[rows, k]: that is what c holds at the top of every iteration."""
+    zeros = {}
+    for st in fn.body:
+        if isinstance(st, ast.Assign) and len(st.targets) == 1 and isinstance(st.targets[0], ast.Name) and isinstance(st.value, ast.Call) and \
+                ast.unparse(st.value.func) in ("np.zeros", "numpy.zeros", "np.zeros_like", "numpy.zeros_like"):
+            zeros[st.targets[0].id] = st
+    for lp in [st for st in fn.body if isinstance(st, ast.For) and isinstance(st.target, ast.Name)]:
+        k = lp.target.id
+        stores = {}
+        for st in lp.body:
+            if isinstance(st, ast.Assign) and len(st.targets) == 1 and isinstance(st.targets[0], ast.Subscript) and isinstance(st.value, ast.Name) and \
+                    isinstance(st.targets[0].value, ast.Name) and st.targets[0].value.id in zeros and isinstance(st.targets[0].slice, ast.Tuple) and \
+                    len(st.targets[0].slice.elts) == 2:
+                col = st.targets[0].slice.elts[1]
+                if isinstance(col, ast.BinOp) and isinstance(col.op, ast.Add) and (
+                        (isinstance(col.left, ast.Name) and col.left.id == k and isinstance(col.right, ast.Constant) and col.right.value == 1) or
+                        (isinstance(col.right, ast.Name) and col.right.id == k and isinstance(col.left, ast.Constant) and col.left.value == 1)):
+                    stores[st.value.id] = st.targets[0]
+        for pos, st in enumerate(lp.body):
+            if isinstance(st, ast.Assign) and len(st.targets) == 1 and isinstance(st.targets[0], ast.Name) and isinstance(st.value, ast.Name) and \
+                    st.value.id in stores and st.targets[0].id in zeros and st.targets[0].id != stores[st.value.id].value.id:
+                c, tgt = st.targets[0].id, stores[st.value.id]
+                prev = ast.Subscript(value=ast.Name(id=tgt.value.id, ctx=ast.Load()),
+                                     slice=ast.Tuple(elts=[copy.deepcopy(tgt.slice.elts[0]), ast.Name(id=k, ctx=ast.Load())], ctx=ast.Load()), ctx=ast.Load())
+
+                class S(ast.NodeTransformer):
+                    def visit_Name(self_, x):
+                        return copy.deepcopy(prev) if (x.id == c and isinstance(x.ctx, ast.Load)) else x
+                for j in range(pos):
+                    lp.body[j] = ast.fix_missing_locations(S().visit(lp.body[j]))
+                lp.body[pos] = ast.copy_location(ast.Pass(), st)
+
+
 def normalise_program(modules):
     """modules: name -> ModuleInfo (parsed, imports collected).  New helpers of another module are inlined where every global the helper
     uses (np, another import) denotes the same thing in the caller's module."""
@@ -597,10 +957,43 @@ def normalise_program(modules):
         mod.tree = normalise_module(mod.tree, name, foreign=foreign, mod_alias=alias)
 
 
+def _property_objects(tree):
+    """N10  in a class body,  X = property(G, S)  (G, S methods of that class)  ->  @property def X(self): return self.G()  and
+    @X.setter def X(self, value): self.S(value)   -- what the descriptor does"""
+    for c in tree.body:
+        if not isinstance(c, ast.ClassDef):
+            continue
+        meths = {m.name: m for m in c.body if isinstance(m, ast.FunctionDef)}
+        new = []
+        for st in c.body:
+            if isinstance(st, ast.Assign) and len(st.targets) == 1 and isinstance(st.targets[0], ast.Name) and isinstance(st.value, ast.Call) \
+                    and ast.unparse(st.value.func) == "property" and not any(k.arg not in ("fget", "fset", "doc") for k in st.value.keywords) \
+                    and len(st.value.args) <= 2:
+                kw = {k.arg: k.value for k in st.value.keywords}
+                g = st.value.args[0] if st.value.args else kw.get("fget")
+                sset = st.value.args[1] if len(st.value.args) > 1 else kw.get("fset")
+                if isinstance(g, ast.Name) and g.id in meths and (sset is None or (isinstance(sset, ast.Name) and sset.id in meths)) and \
+                        not (isinstance(sset, ast.Constant) and sset.value is not None):
+                    x = st.targets[0].id
+                    src = "@property\ndef %s(self):\n    return self.%s()\n" % (x, g.id)
+                    if isinstance(sset, ast.Name):
+                        src += "@%s.setter\ndef %s(self, value):\n    self.%s(value)\n" % (x, x, sset.id)
+                    for d in ast.parse(src).body:
+                        for n in ast.walk(d):
+                            if hasattr(n, "lineno"):
+                                n.lineno = n.end_lineno = st.lineno
+                                n.col_offset = n.end_col_offset = st.col_offset
+                        new.append(d)
+                    continue
+            new.append(st)
+        c.body = new
+
+
 def normalise_module(tree, modname, foreign=None, mod_alias=None):
     if os.environ.get("VERIF_NO_NORMALISE") == "1":
         return tree
     tree = ast.fix_missing_locations(_Spell().visit(tree))
+    _property_objects(tree)
     pin = pinned()
     funcs, classes = {}, {}
     for n in tree.body:
@@ -623,19 +1016,31 @@ def normalise_module(tree, modname, foreign=None, mod_alias=None):
                 classes.setdefault(cname, {}).setdefault(k, v)
             todo.extend(bases[b])
     _module_constants(tree)
+    dattrs = _dict_attrs(tree)
     ctx = _Ctx(modname, funcs, classes, foreign=foreign, mod_alias=mod_alias)
     for n in tree.body:
         if isinstance(n, ast.FunctionDef):
             ctx.caller_names = _locals_of(n) | {x.id for x in ast.walk(n) if isinstance(x, ast.Name)}
             n.body = _block(n.body, ctx, None, None)
+            _pair_loops(n, ctx)
+            n.body = _block(n.body, ctx, None, None)
+            _hoist_common_prefix(n)
+            _Getattr().visit(n)
+            _try_keyerror(n, dattrs)
             _views(n)
+            _carried_state(n)
         elif isinstance(n, ast.ClassDef):
             for m in n.body:
                 if isinstance(m, ast.FunctionDef):
                     selfname = m.args.args[0].arg if (m.args.args and not any(ast.unparse(d) == "staticmethod" for d in m.decorator_list)) else None
                     ctx.caller_names = _locals_of(m) | {x.id for x in ast.walk(m) if isinstance(x, ast.Name)}
                     m.body = _block(m.body, ctx, n.name, selfname)
+                    _pair_loops(m, ctx)
+                    _hoist_common_prefix(m)
+                    _Getattr().visit(m)
+                    _try_keyerror(m, dattrs)
                     _views(m)
+                    _carried_state(m)
     return ast.fix_missing_locations(tree)
 
 
